@@ -216,19 +216,21 @@ theorem satisfy_within_bounds_partial (ctx : Ctx) (env : SatEnv) (hS : SigsSmall
   obtain ⟨hb, hm⟩ := satisfy_within_bounds ctx env hS n h hs hB w hsat hcan
   exact ⟨hm, hb, fun o ho => max_ops_ge_script_ops ctx h160 n false o ho⟩
 
-/-- T4 (refusal half), about the model of the satisfier itself (`Model/C15/Satisfy.lean`:
-    `_computed_input`, `_better`, `satisfy`, tied by the `sat` stream): when the spending condition
-    is false for what is available — no signature offered for a key, no preimage, a lock time the
-    transaction does not meet, combined by the expression's and/or/andor structure — `satisfy`
-    refuses with "no satisfaction", both dialects.  PARTIAL: `cond` answers "possibly true" for
-    multi, multi_a and thresh, so nothing is claimed of an expression whose falsity depends on a
-    quorum (a quorum under an `or`, or alone); and the leaf conditions for lock times are the
-    satisfier's own `_older`/`_after` (modelled, tied by the `sat` stream), not an independent
-    reading of BIP65/BIP68 — the independent reading is the harness's `condition` in the `spend`
-    oracle. -/
-theorem satisfy_refuses_when_condition_false_partial (ctx : Ctx) (env : SatEnv) (n : Ms)
+/-- T4 (refusal half), about the model of the satisfier (`Model/C15/Satisfy.lean`: `_computed_input`,
+    `_better`, `satisfy`, tied by the `sat` stream): when the spending condition is false for what
+    is available, `satisfy` refuses with "no satisfaction" — for EVERY expression, both dialects.
+    The condition (`cond`): a key holds when a signature is offered for it, a hash when its
+    preimage is; `multi`/`multi_a` when at least k of the keys have signatures, `thresh` when at
+    least k subexpressions hold; and/or/andor by structure; lock times by the satisfier's own
+    `_older`/`_after` (modelled; the independent BIP65/68 reading is the harness's `condition`). -/
+theorem satisfy_refuses_when_condition_false (ctx : Ctx) (env : SatEnv) (n : Ms)
     (h : cond ctx env n = false) : satisfy ctx env n = .error .none :=
   satisfy_none_of_cond_false ctx env n h
+
+/-- non-vacuity: a 2-of-3 `multi` with one signature, under an `or_i` with an unmet lock time. -/
+example :
+    cond .p2wsh ⟨[([2], [9])], [], 0, 0, 2⟩ (.bin .or_i (.multi 2 [[2], [3], [4]]) (.older 5)) = false := by
+  decide
 
 /-- non-vacuity: with no signature for K, `and_v(v:c:pk_k(K),older(5))` has a false condition. -/
 example : cond .p2wsh ⟨[], [], 0, 5, 2⟩ (.bin .and_v (.wrap .v (.wrap .c (.pk_k [2]))) (.older 5)) = false := by
